@@ -257,7 +257,9 @@ def register_line(reg):
                      returns=Arr('bool'), requires=req,
                      ensures=lambda c, r: [('length', r.n == c.inds.n),
                                            ('cells', forall('int', lambda k: Implies(And(k >= 0, k < c.inds.n), cell_ok(c, r, k))))],
-                     loops={0: Loop(var='i', invariant=inv_i), 1: Loop(var='k', invariant=inv_k),
+                     loops={0: Loop(var='i', invariant=inv_i, keep_using={'done': ['inv:done', 'inv:this', 'inv:range'],
+                                                                        'todo': ['inv:todo', 'inv:range']}),
+                            1: Loop(var='k', invariant=inv_k),
                             2: Loop(var='m', invariant=inv_m)},
                      props=P, merge=False,
                      stand_in=('inv-keep:this', 'inv-keep:no-earlier-segment')))
